@@ -210,7 +210,8 @@ def jobs(tier):
     sw = [[('m', '@'), ('b', 2)], [('b', 1), ('m', '@'), ('b', 2)], [('m', '@'), ('b', 1), ('m', 'G'), ('b', 2)],
           [('b', 2), ('m', '@'), ('b', 1), ('m', '8'), ('b', 2)], [('m', 'x'), ('b', 2)], [('m', '@'), ('b', 1), ('m', 'x'), ('b', 1)],
           [('b', 2), ('m', 'G'), ('b', 2)], [('b', 1), ('m', '8'), ('b', 2)], [('b', 2), ('m', 'x'), ('b', 1)],
-          [('m', '@'), ('b', 1), ('m', '@'), ('b', 1)]]
+          [('m', '@'), ('b', 1), ('m', '@'), ('b', 1)], [('m', '@'), ('m', 'G'), ('b', 3)], [('b', 3)],
+          [('m', '@'), ('b', 1), ('m', '8'), ('b', 3)]]
     for i, plan in enumerate(sw):
         js.append(Job('switch/%d' % i, path_bytes, plan=plan, prop=PROP))
     return js
